@@ -11,6 +11,7 @@ import (
 	"sort"
 	"strings"
 	"sync"
+	"sync/atomic"
 	"time"
 
 	"golang.org/x/tools/go/ssa"
@@ -269,6 +270,7 @@ func cmdCheck(args []string) {
 		}
 	}
 
+	var stopFlag atomic.Bool
 	var wg sync.WaitGroup
 	ch := make(chan *job)
 	var mu sync.Mutex
@@ -306,6 +308,7 @@ func cmdCheck(args []string) {
 					budget = 600
 				}
 				cfg.Deadline = time.Now().Add(time.Duration(budget) * time.Second)
+				cfg.Stop = &stopFlag
 				for id := range knownIDs {
 					cfg.Known[id] = true
 				}
@@ -317,7 +320,14 @@ func cmdCheck(args []string) {
 				if fn == nil {
 					j.res = HarnessResult{Harness: h.Func, Verdict: "INCONCLUSIVE", Events: []Event{{"load", "harness function " + h.Func + " not found in " + h.Pkg}}}
 				} else {
-					j.res = runHarness(prog, fn, cfg, j.prefix, *solver, "")
+					if stopFlag.Load() {
+						j.res = HarnessResult{Harness: h.Func, Verdict: "SKIPPED"}
+					} else {
+						j.res = runHarness(prog, fn, cfg, j.prefix, *solver, "")
+					}
+					if j.res.Verdict == "VIOLATION" {
+						stopFlag.Store(true)
+					}
 				}
 				mu.Lock()
 				done++
